@@ -167,8 +167,11 @@ theorem pnChan_step (a : PNAbs) (hb : a.Bounded) (b : Bytes) (hv : b.Valid)
       split <;> first | omega | rfl
     simp [this, c98, c99, c100, c101, c38, hj]
 
-def PNRel (s : PNScanner) (past : List Op) : Prop :=
-  ∀ c (h : c < 16), s[c] = (PNAbs.of past c).toChan ∧ (PNAbs.of past c).Bounded
+/-- the scanner state is described by an abstraction `f` (per channel: the four stored items) -/
+def PNAbsRel (s : PNScanner) (f : Nat → PNAbs) : Prop :=
+  ∀ c (h : c < 16), s[c] = (f c).toChan ∧ (f c).Bounded
+
+def PNRel (s : PNScanner) (past : List Op) : Prop := PNAbsRel s (PNAbs.of past)
 
 theorem pnRel_new : PNRel PNScanner.new [] := by
   intro c h
@@ -181,8 +184,10 @@ theorem pnRel_reset (s : PNScanner) (past : List Op) : PNRel s.reset (past ++ [.
 theorem pnAbs_step_other (c : Nat) (a : PNAbs) (b : Bytes) (h : b.status ≠ 176 + c) : a.step c (.feed b) = a := by
   simp [PNAbs.step, numMsbStep, numLsbStep, regStep, v38Step, ccOn, h]
 
-theorem pn_feed_step (s : PNScanner) (past : List Op) (hr : PNRel s past) (b : Bytes) (hv : b.Valid) :
-    ∃ s', s.feed rawImpl b = .ok (s', justifiedPN past b) ∧ PNRel s' (past ++ [.feed b]) := by
+/-- one feed from ANY state described by an abstraction `f` -/
+theorem pn_feed_abs (s : PNScanner) (f : Nat → PNAbs) (hr : PNAbsRel s f) (b : Bytes) (hv : b.Valid) :
+    ∃ s', s.feed rawImpl b = .ok (s', justPN (f (b.status - 176)) b) ∧
+      PNAbsRel s' (fun c => (f c).step c (.feed b)) := by
   rw [pnScanner_feed s b hv]
   by_cases hcc : 176 ≤ b.status ∧ b.status < 192
   · obtain ⟨hlo, hhi⟩ := hcc
@@ -190,29 +195,29 @@ theorem pn_feed_step (s : PNScanner) (past : List Op) (hr : PNRel s past) (b : B
     have h16 : b.status % 16 < 16 := Nat.mod_lt _ (by decide)
     have hch : b.status % 16 = b.status - 176 := by omega
     obtain ⟨hs, hb⟩ := hr _ h16
-    have step := pnChan_step (PNAbs.of past (b.status % 16)) hb b hv hlo hhi
-    have stepb := pnAbs_step_bounded (b.status % 16) (PNAbs.of past (b.status % 16)) hb (.feed b) hv
+    have step := pnChan_step (f (b.status % 16)) hb b hv hlo hhi
+    have stepb := pnAbs_step_bounded (b.status % 16) (f (b.status % 16)) hb (.feed b) hv
     rw [← hch] at step
     simp only [hlt, if_true]
     rw [hs, step]
     simp only [bind, Except.bind]
-    rw [justifiedPN_eq, ← hch]
+    rw [← hch]
     refine ⟨_, rfl, ?_⟩
     intro c hc
-    rw [pnAbs_snoc]
     by_cases hc' : c = b.status % 16
     · subst hc'
       rw [Vector.getElem_set_self]
       exact ⟨rfl, stepb⟩
-    · rw [Vector.getElem_set_ne _ _ (by omega), pnAbs_step_other c _ b (by omega)]
+    · rw [Vector.getElem_set_ne _ _ (by omega)]
+      simp only [pnAbs_step_other c _ b (by omega)]
       exact hr c hc
-  · have hj : justifiedPN past b = none := by
-      unfold justifiedPN
+  · have hj : justPN (f (b.status - 176)) b = none := by
+      unfold justPN
       have : ¬ (176 ≤ b.status ∧ b.status < 192 ∧ (b.d1 = 6 ∨ b.d1 = 96 ∨ b.d1 = 97)) := by omega
       simp [this]
-    have hrel : PNRel s (past ++ [.feed b]) := by
+    have hrel : PNAbsRel s (fun c => (f c).step c (.feed b)) := by
       intro c hc
-      rw [pnAbs_snoc, pnAbs_step_other c _ b (by omega)]
+      simp only [pnAbs_step_other c _ b (by omega)]
       exact hr c hc
     rw [hj]
     by_cases hlt : b.status < 240
@@ -227,6 +232,14 @@ theorem pn_feed_step (s : PNScanner) (past : List Op) (hr : PNRel s past) (b : B
       exact ⟨s, rfl, hrel⟩
     · simp only [hlt, if_false]
       exact ⟨s, rfl, hrel⟩
+
+theorem pn_feed_step (s : PNScanner) (past : List Op) (hr : PNRel s past) (b : Bytes) (hv : b.Valid) :
+    ∃ s', s.feed rawImpl b = .ok (s', justifiedPN past b) ∧ PNRel s' (past ++ [.feed b]) := by
+  obtain ⟨s', h1, h2⟩ := pn_feed_abs s (PNAbs.of past) hr b hv
+  refine ⟨s', h1, ?_⟩
+  intro c hc
+  rw [pnAbs_snoc]
+  exact h2 c hc
 
 theorem pn_step (s : PNScanner) (past : List Op) (hr : PNRel s past) (op : Op) (hv : op.Valid) :
     ∃ s', pnStep s op = .ok (s', expectPN past op) ∧ PNRel s' (past ++ [op]) := by
@@ -243,5 +256,70 @@ theorem pn_run (s : PNScanner) (pre : List Op) (hr : PNRel s pre) (ops : List Op
     obtain ⟨s2, h2, r2⟩ := ih s1 (pre ++ [op]) r1 (fun o ho => hv o (List.mem_cons_of_mem _ ho))
     refine ⟨s2, ?_, by simpa using r2⟩
     simp [pnRun, h1, h2, bind, Except.bind, expectedPN]
+
+end Midi
+
+namespace Midi
+open Midi.Spec
+
+/-! ### runs from ANY abstractly described state (used by C10, C15, C16) -/
+
+def absAfterPN (f : Nat → PNAbs) : List Op → (Nat → PNAbs)
+  | [] => f
+  | op :: ops => absAfterPN (fun c => (f c).step c op) ops
+
+def absOutPN (f : Nat → PNAbs) : Op → Option PNMsg
+  | .feed b => justPN (f (b.status - 176)) b
+  | .reset => none
+
+def absOutsPN (f : Nat → PNAbs) : List Op → List (Option PNMsg)
+  | [] => []
+  | op :: ops => absOutPN f op :: absOutsPN (fun c => (f c).step c op) ops
+
+theorem pn_step_abs (s : PNScanner) (f : Nat → PNAbs) (hr : PNAbsRel s f) (op : Op) (hv : op.Valid) :
+    ∃ s', pnStep s op = .ok (s', absOutPN f op) ∧ PNAbsRel s' (fun c => (f c).step c op) := by
+  cases op with
+  | feed b => exact pn_feed_abs s f hr b hv
+  | reset =>
+    refine ⟨s.reset, rfl, ?_⟩
+    intro c h
+    simp [PNScanner.reset, PNAbs.step, PNAbs.toChan, numMsbStep, numLsbStep, regStep, v38Step, PNAbs.Bounded]
+
+theorem pn_run_abs (s : PNScanner) (f : Nat → PNAbs) (hr : PNAbsRel s f) (ops : List Op) (hv : ∀ op ∈ ops, op.Valid) :
+    ∃ s', pnRun s ops = .ok (s', absOutsPN f ops) ∧ PNAbsRel s' (absAfterPN f ops) := by
+  induction ops generalizing s f with
+  | nil => exact ⟨s, rfl, hr⟩
+  | cons op ops ih =>
+    obtain ⟨s1, h1, r1⟩ := pn_step_abs s f hr op (hv op (List.mem_cons_self))
+    obtain ⟨s2, h2, r2⟩ := ih s1 _ r1 (fun o ho => hv o (List.mem_cons_of_mem _ ho))
+    refine ⟨s2, ?_, r2⟩
+    simp [pnRun, h1, h2, bind, Except.bind, absOutsPN]
+
+/-- outputs of one channel's abstraction over a list of messages -/
+def chanOutsPN (c : Nat) (a : PNAbs) : List Bytes → List (Option PNMsg)
+  | [] => []
+  | b :: bs => justPN a b :: chanOutsPN c (a.step c (.feed b)) bs
+
+def chanAfterPN (c : Nat) (a : PNAbs) : List Bytes → PNAbs
+  | [] => a
+  | b :: bs => chanAfterPN c (a.step c (.feed b)) bs
+
+/-- a stream of messages that are all on channel c only consults and moves channel c's abstraction -/
+theorem absOuts_single_channel (c : Nat) (f : Nat → PNAbs) (bs : List Bytes) (hb : ∀ b ∈ bs, b.status = 176 + c) :
+    absOutsPN f (bs.map .feed) = chanOutsPN c (f c) bs ∧ absAfterPN f (bs.map .feed) c = chanAfterPN c (f c) bs := by
+  induction bs generalizing f with
+  | nil => exact ⟨rfl, rfl⟩
+  | cons b bs ih =>
+    have hbs := hb b (List.mem_cons_self)
+    have e : b.status - 176 = c := by omega
+    have := ih (fun c' => (f c').step c' (.feed b)) (fun x hx => hb x (List.mem_cons_of_mem _ hx))
+    simp only [List.map, absOutsPN, absOutPN, chanOutsPN, absAfterPN, chanAfterPN, e]
+    exact ⟨by rw [this.1], this.2⟩
+
+theorem chanOutsPN_append (c : Nat) (a : PNAbs) (xs ys : List Bytes) :
+    chanOutsPN c a (xs ++ ys) = chanOutsPN c a xs ++ chanOutsPN c (chanAfterPN c a xs) ys := by
+  induction xs generalizing a with
+  | nil => rfl
+  | cons x xs ih => simp [chanOutsPN, chanAfterPN, ih]
 
 end Midi
